@@ -11,6 +11,7 @@ KNOWN = {
     'invalid:id-missing': 'C04-upgrade-id-missing',
     'invalid:cleared-output': 'C04-cleared-output',
     'invalid:tag-added-by-both-sides-at-different-places': 'C04-same-tag-twice',
+    'invalid:one-sided-upgrade-id-missing': 'C04-one-sided-upgrade-id-missing',
 }
 
 
